@@ -58,6 +58,21 @@ pub struct Trace<'a> {
     pub epoch_at: Vec<u32>,
 }
 
+/// The operation left bytes on the wire that no later call completes: it was given up (or ran
+/// away) after part of what it wrote, or a write it made straight from scratch space (QoS 0
+/// PUBLISH, CONNECT, a reply) was answered `Ok(0)` part-way. (A queue-based packet hit by `Ok(0)`
+/// keeps its progress and is carried on by the next call.)
+pub fn left_bytes_behind(log: &RunLog, o: &OpRec) -> bool {
+    if o.out_after <= o.out_before {
+        return false;
+    }
+    match &o.outcome {
+        Outcome::Cancelled | Outcome::Watchdog => true,
+        Outcome::Err(ErrRepr::WriteZero) => o.kind == "connect" || o.kind == "publish0" || o.kind == "pollreply" || matches!(&log.steps[o.step], Step::Publish(p) if p.qos == 0 || log.cfg.downgrade),
+        _ => false,
+    }
+}
+
 impl<'a> Trace<'a> {
     pub fn new(log: &'a RunLog, w: &'a World) -> Self {
         let mut conns: Vec<ConnInfo> = w
